@@ -1025,6 +1025,9 @@ class Exec:
         st.pc.append(safe_forall([k], z3.Implies(z3.And(0 <= k, k < m), z3.And(0 <= sg(k), sg(k) < n, arrR[k] == arrL[sg(k)], cond(arrL[sg(k)]), tau(sg(k)) == k)), patterns=[arrR[k]]))
         st.pc.append(safe_forall([k, k2], z3.Implies(z3.And(0 <= k, k < k2, k2 < m), sg(k) < sg(k2)), patterns=[z3.MultiPattern(sg(k), sg(k2))]))
         st.pc.append(safe_forall([j], z3.Implies(z3.And(0 <= j, j < n, cond(arrL[j])), z3.And(0 <= tau(j), tau(j) < m, sg(tau(j)) == j, arrR[tau(j)] == arrL[j])), patterns=[arrL[j]]))
+        self.notes.append("filtered comprehension: characterised by ghost index maps (strictly increasing selection of exactly the elements that satisfy the condition)")
+        if not (self.contract is not None and "wsum(" in repr((self.contract.asserts, self.contract.ensures))):
+            return self.new_list(st, src.elem, m, arrR)
         # the same selection seen through a counting function: cnt(j) = number of kept elements among L[0:j]; the j-th element, if kept, is R[cnt(j)]
         cnt = z3.Function(f"cnt!{fresh('f')}", I, I)
         st.pc.append(cnt(0) == 0)
